@@ -10,8 +10,8 @@ if ! git apply --check "$D/patch.diff" 2>/dev/null; then
 else
   git apply "$D/patch.diff"
 fi
-cd /verif && ./check $P --tier $T > /tmp/seed_$S.out 2>&1; rc=$?
-cp /verif/evidence/$P.json /tmp/seed_$S.evidence.json 2>/dev/null
+cd /verif && VERIF_EVIDENCE_DIR=/tmp/verif-exp-evidence ./check $P --tier $T > /tmp/seed_$S.out 2>&1; rc=$?
+cp /tmp/verif-exp-evidence/$P.json /tmp/seed_$S.evidence.json 2>/dev/null
 cd /repo && git checkout -q -- . && git clean -fdq -- pkg apis cmd 2>/dev/null
 echo "SEED $S rc=$rc"; grep -E "violated|undecided" /tmp/seed_$S.out | head -5
 exit 0
